@@ -4,15 +4,19 @@
 //! case = kind|D|H|scripts|input|payload
 //!   kind B : payload = forest `r.t.s.e[children]...`, built with PairsBuilder (rule ids 0..2 = enum R {a,b,c}, t = tag id or -)
 //!   kind X : payload = PairsBuilder call sequence `R r s e` / `W r s e ( .. )` / `T t` (may panic)
-//!   kind P : payload = src#names#rawtokens ; src = `vm:<grammar idx>` or `st:<prog>`; the real parse result
-//!            is observed, rawtokens = what its Tokens iterator yields (+ tags from flatten), from which the
-//!            runner rebuilds the queue
+//!   kind P : payload = src#names#rawtokens ; src = `vm:<grammar idx>` | `vg:<hex of a generated grammar>` | `st:<prog>` |
+//!            `pp:<pvharness::prog program>`; the real parse result is observed, rawtokens = what its Tokens iterator
+//!            yields (+ tags from flatten), from which the runner rebuilds the queue; for `pp:` the REAL queue with its
+//!            cross-links (ParserState::verif_dump at the end of the parse) as s<end>.<pos> / e<start>.<rule>.<tag>.<pos>
 //! D = depth of the exhaustive next/next_back DFS, H = cap of the canonical heavy states,
 //! scripts = comma separated op strings over n b l p (random interleavings).
 //! The OCaml runner recomputes every label with the extracted model of the code and with the specification.
 use pest::iterators::{FlatPairs, Pair, Pairs, PairsBuilder, Tokens};
 use pest::{ParseResult, ParserState, RuleType, Token};
+use pvharness::gram::{pest_grammar, GRule, Ty, GE};
+use pvharness::prog as pp;
 use pvharness::*;
+use std::cell::RefCell;
 use std::collections::HashSet;
 use std::io::{self, BufWriter, Write};
 
@@ -21,6 +25,7 @@ use std::io::{self, BufWriter, Write};
 enum R { a, b, c }
 const RS: [R; 3] = [R::a, R::b, R::c];
 const TAGS: [&str; 3] = ["t0", "t1", "t2"];
+const NUMTAGS: [&str; 3] = ["0", "1", "2"];   // the tag strings of pvharness::prog
 
 #[derive(Clone, Debug)]
 struct T { rule: usize, tag: Option<usize>, s: usize, e: usize, ch: Vec<T> }
@@ -173,10 +178,13 @@ struct Ctx<'i, 'c, Rt: RuleType> {
     d: usize,
     h: usize,
     scripts: Vec<String>,
+    tagnames: [&'static str; 3],
     out: Vec<(String, String)>,
 }
 
-fn tagid(t: Option<&str>) -> String { match t { None => "-".into(), Some(s) => TAGS.iter().position(|x| *x == s).map(|i| i.to_string()).unwrap_or("?".into()) } }
+fn tagid(t: Option<&str>) -> String {
+    match t { None => "-".into(), Some(s) => TAGS.iter().position(|x| *x == s).map(|i| i.to_string()).unwrap_or_else(|| if s.parse::<usize>().is_ok() { s.to_string() } else { "?".into() }) }
+}
 fn ps(r: Result<String, String>) -> String { r.unwrap_or_else(|_| "PANIC".into()) }
 
 impl<'i, 'c, Rt: RuleType> Ctx<'i, 'c, Rt> {
@@ -346,7 +354,8 @@ impl<'i, 'c, Rt: RuleType> Ctx<'i, 'c, Rt> {
                 if with_scripts { for (n, sc) in self.scripts.clone().iter().enumerate() { let v = self.script_tokens(&t, sc); self.emit(format!("{}.st{}", lab, n), v); } }
             }
         }
-        for (ti, tg) in TAGS.iter().enumerate() {
+        let tagnames = self.tagnames;
+        for (ti, tg) in tagnames.iter().enumerate() {
             let all = ps(catch(|| p.clone().find_tagged(tg).map(|x| self.idx(&x)).collect::<Vec<_>>().join(" ")));
             let first = self.item(&catch(|| p.find_first_tagged(tg)));
             self.emit(format!("{}.tag{}", lab, ti), format!("{}|{}", all, first));
@@ -366,13 +375,35 @@ fn preorder<'i, Rt: RuleType>(ps: Pairs<'i, Rt>, out: &mut Vec<Pair<'i, Rt>>, bu
     }
 }
 
+/// Rust-side sanity check of the token stream of a Pairs value: balanced with matching rules, positions never
+/// decrease and are char boundaries inside the input
+fn stream_ok<'i, Rt: RuleType>(root: &Pairs<'i, Rt>, input: &str) -> bool {
+    let mut stack: Vec<Rt> = vec![];
+    let mut last = 0usize;
+    for t in root.clone().tokens() {
+        let p = match &t { Token::Start { pos, .. } | Token::End { pos, .. } => pos.pos() };
+        if p < last || !input.is_char_boundary(p) { return false; }
+        last = p;
+        match t {
+            Token::Start { rule, .. } => stack.push(rule),
+            Token::End { rule, .. } => if stack.pop() != Some(rule) { return false; },
+        }
+    }
+    stack.is_empty()
+}
+
 fn observe<'i, Rt: RuleType>(root: Pairs<'i, Rt>, input: &'i str, rid: &dyn Fn(&Rt) -> usize, d: usize, h: usize, scripts: &[String]) -> String {
+    observe_t(root, input, rid, d, h, scripts, TAGS)
+}
+fn observe_t<'i, Rt: RuleType>(root: Pairs<'i, Rt>, input: &'i str, rid: &dyn Fn(&Rt) -> usize, d: usize, h: usize, scripts: &[String], tagnames: [&'static str; 3]) -> String {
+    let wf = match catch(|| stream_ok(&root, input)) { Ok(true) => "1", Ok(false) => "0", Err(_) => "PANIC" };
     let mut pre = vec![];
     let mut budget = 10_000usize;
-    if catch(|| preorder(root.clone(), &mut pre, &mut budget, 0)).is_err() { return "PRE=PANIC;".into(); }
-    let mut cx = Ctx { input, pre, rid, d, h, scripts: scripts.to_vec(), out: vec![] };
+    if catch(|| preorder(root.clone(), &mut pre, &mut budget, 0)).is_err() { return format!("WF={};PRE=PANIC;", wf); }
+    let mut cx = Ctx { input, pre, rid, d, h, scripts: scripts.to_vec(), tagnames, out: vec![] };
     let _ = cx.input;
     let n = cx.pre.len();
+    cx.emit("WF".into(), wf.to_string());
     cx.emit("N".into(), n.to_string());
     for k in 0..n { cx.pair_views(k); }
     cx.pairs_test("root", Ok(root.clone()), true);
@@ -461,6 +492,121 @@ fn run_st_case(out: &mut Out, d: usize, h: usize, scripts: &[String], input: &st
             out.line(&case, &obs, raw.matches('S').count() >= 3);
             true
         }
+    }
+}
+
+
+// ------------------------------------------------------------------------------------------
+// generated grammars for pest_vm: nested look-aheads around rule references, sequences that fail after a sub-rule
+// matched (repetition with a trailing mismatch, choice whose first alternative fails late), all five rule types calling
+// each other (`!{}` / `${}` inside `@{}`), WHITESPACE rules that emit tokens
+fn gen_c04_expr(r: &mut Rng, d: u32, i: usize, n: usize) -> GE {
+    use GE::*;
+    let lit = |r: &mut Rng| Str(["x", "y", "xy", "yx"][r.weighted(&[6, 5, 2, 1])].to_string());
+    let id = |r: &mut Rng| if i + 1 < n { Id(format!("r{}", i + 1 + r.below((n - i - 1) as u64) as usize)) } else { Str(["x", "y"][r.below(2) as usize].to_string()) };
+    if d == 0 || r.chance(1, 5) {
+        return match r.weighted(&[6, 9, 1, 1]) { 0 => lit(r), 1 => id(r), 2 => Id("ANY".into()), _ => Id("EOI".into()) };
+    }
+    let bx = |e: GE| Box::new(e);
+    match r.weighted(&[8, 6, 3, 3, 4, 4, 2, 3, 3, 3, 2, 2]) {
+        0 => { let a = gen_c04_expr(r, d - 1, i, n); let b = gen_c04_expr(r, d - 1, i, n); Seq(bx(a), bx(b)) }
+        1 => { let a = gen_c04_expr(r, d - 1, i, n); let b = gen_c04_expr(r, d - 1, i, n); Cho(bx(a), bx(b)) }
+        2 => { let a = gen_c04_expr(r, d - 1, i, n); let l = lit(r); Rep(bx(Seq(bx(l), bx(a)))) }
+        3 => Opt(bx(gen_c04_expr(r, d - 1, i, n))),
+        4 => Neg(bx(gen_c04_expr(r, d - 1, i, n))),
+        5 => Pos(bx(gen_c04_expr(r, d - 1, i, n))),
+        6 => { let a = gen_c04_expr(r, d - 1, i, n); let l = lit(r); Rep1(bx(Seq(bx(a), bx(l)))) }
+        // &(!A ~ B) ~ B : a look-ahead nested in a successful positive look-ahead, followed by rule references
+        7 => { let a = id(r); let b = id(r); let inner = if r.chance(1, 2) { Neg(bx(a)) } else { Pos(bx(a)) };
+               Seq(bx(Pos(bx(Seq(bx(inner), bx(b.clone()))))), bx(b)) }
+        // (A ~ lit)* ~ B : the last iteration matches A and then fails
+        8 => { let a = id(r); let b = if r.chance(1, 2) { a.clone() } else { id(r) }; let l = lit(r); Seq(bx(Rep(bx(Seq(bx(a), bx(l))))), bx(b)) }
+        // (A ~ lit1 | A ~ lit2) : the first alternative fails late
+        9 => { let a = id(r); let l1 = lit(r); let l2 = lit(r); let t = gen_c04_expr(r, d - 1, i, n);
+               Cho(bx(Seq(bx(a.clone()), bx(l1))), bx(Seq(bx(a), bx(if r.chance(1, 2) { l2 } else { t })))) }
+        // three levels: !( &A ~ !B ) ~ A,  &( &( !A ~ B ) ~ B ) ~ B
+        10 => { let a = id(r); let b = id(r);
+                if r.chance(1, 2) { Seq(bx(Neg(bx(Seq(bx(Pos(bx(a.clone()))), bx(Neg(bx(b))))))), bx(a)) }
+                else { Seq(bx(Pos(bx(Seq(bx(Pos(bx(Seq(bx(Neg(bx(a))), bx(b.clone()))))), bx(b.clone()))))), bx(b)) } }
+        // A? ~ lit | A : optional sub-rule, then a mismatch
+        _ => { let a = id(r); let l = lit(r); Cho(bx(Seq(bx(Opt(bx(a.clone()))), bx(l))), bx(a)) }
+    }
+}
+fn gen_c04_grammar(r: &mut Rng) -> Vec<GRule> {
+    let n = 3 + r.below(3) as usize;
+    let tys = [Ty::Normal, Ty::Silent, Ty::Atomic, Ty::Compound, Ty::NonAtomic];
+    let profile = r.below(3);
+    let mut rules: Vec<GRule> = (0..n).map(|i| {
+        let ty = match profile {
+            // an atomic rule on top of non-atomic / compound / normal ones
+            0 => if i == 0 { Ty::Atomic } else { tys[r.weighted(&[2, 1, 1, 2, 4])] },
+            1 => if i == 0 { tys[r.weighted(&[3, 1, 0, 2, 0])] } else { tys[r.weighted(&[3, 1, 3, 2, 3])] },
+            _ => tys[r.weighted(&[3, 1, 3, 2, 3])],
+        };
+        GRule { name: format!("r{}", i), ty, e: gen_c04_expr(r, 3, i, n) }
+    }).collect();
+    // leaves of the call order are plain so that something matches
+    let last = n - 1;
+    rules[last].e = GE::Str(["x", "y"][r.below(2) as usize].to_string());
+    if r.chance(1, 2) { rules[last - 1].e = GE::Seq(Box::new(GE::Str("x".into())), Box::new(GE::Opt(Box::new(GE::Id(format!("r{}", last)))))); }
+    match r.below(6) {
+        0 => rules.push(GRule { name: "WHITESPACE".into(), ty: Ty::Silent, e: GE::Str(" ".into()) }),
+        1 | 2 => rules.push(GRule { name: "WHITESPACE".into(), ty: [Ty::Normal, Ty::Atomic, Ty::Compound][r.below(3) as usize], e: GE::Str(" ".into()) }),
+        3 => { rules.push(GRule { name: "WHITESPACE".into(), ty: Ty::Normal, e: GE::Str(" ".into()) });
+               rules.push(GRule { name: "COMMENT".into(), ty: Ty::Normal, e: GE::Str("yy".into()) }); }
+        _ => {}
+    }
+    rules
+}
+
+fn hexs(s: &str) -> String { s.bytes().map(|b| format!("{:02x}", b)).collect() }
+fn unhexs(h: &str) -> String { String::from_utf8((0..h.len() / 2).map(|k| u8::from_str_radix(&h[2 * k..2 * k + 2], 16).unwrap()).collect()).unwrap() }
+
+/// one parse of a generated grammar; returns the raw token stream when the parse succeeded
+fn run_vg_case(out: &mut Out, vm: &pest_vm::Vm, names: &[String], gtext: &str, d: usize, h: usize, input: &str, seen: Option<&mut HashSet<String>>) -> bool {
+    let rid = |r: &&str| names.iter().position(|n| n == r).unwrap_or(99);
+    match catch(|| vm.parse("r0", input)) {
+        Err(_) | Ok(Err(_)) => false,
+        Ok(Ok(root)) => {
+            let raw = catch(|| raw_tokens(&root, &rid)).unwrap_or_else(|_| "PANIC".into());
+            if let Some(seen) = seen { if !seen.insert(raw.clone()) { return true; } }
+            let case = format!("P|{}|{}||{}|vg:{}#{}#{}", d, h, esc(input), hexs(gtext), names.join(","), raw);
+            let obs = observe(root, input, &rid, d, h, &[]);
+            out.line(&case, &obs, raw.matches('S').count() >= 3);
+            true
+        }
+    }
+}
+
+/// one run of a pvharness::prog program on the real ParserState; the real queue (with links) is dumped at the end
+fn run_pp_case(out: &mut Out, d: usize, h: usize, scripts: &[String], input: &str, p: &pp::Prog) -> bool {
+    let dump: RefCell<String> = RefCell::new(String::new());
+    let cx = pp::Ctx::new(&[], 20_000);
+    let res = catch(|| pest::state::<pp::R, _>(input, |s| { let r = pp::run(p, s, &cx); if let Ok(ref st) = r { *dump.borrow_mut() = st.verif_dump(); } r }));
+    if cx.diverged.get() { return false; }
+    match res {
+        Err(_) | Ok(Err(_)) => false,
+        Ok(Ok(root)) => {
+            let rid = |r: &pp::R| *r as usize;
+            let d0 = dump.borrow();
+            let q = d0.split(';').find_map(|f| f.strip_prefix("q=")).unwrap_or("");
+            let raw: Vec<String> = q.split(',').filter(|x| !x.is_empty()).map(|t| {
+                let f: Vec<&str> = t.split(':').collect();
+                if f[0] == "S" { format!("s{}.{}", f[1], f[2]) } else { format!("e{}.{}.{}.{}", f[1], f[2], f[3], f[4]) }
+            }).collect();
+            let raw = raw.join(",");
+            let case = format!("P|{}|{}|{}|{}|pp:{}#~0,1,2#{}", d, h, scripts.join(","), esc(input), p.show(), raw);
+            let obs = observe_t(root, input, &rid, d, h, scripts, NUMTAGS);
+            out.line(&case, &obs, raw.matches('s').count() >= 3);
+            true
+        }
+    }
+}
+
+fn compile(gtext: &str) -> Option<(pest_vm::Vm, Vec<String>)> {
+    match catch(|| pest_meta::parse_and_optimize(gtext)) {
+        Ok(Ok((_, rules))) => { let mut names: Vec<String> = rules.iter().map(|r| r.name.clone()).collect(); names.push("EOI".to_string()); Some((pest_vm::Vm::new(rules), names)) }
+        _ => None,
     }
 }
 
@@ -647,6 +793,45 @@ fn main() {
                 if run_st_case(&mut out, 3, 2, &scripts, &input, &pg) { produced += 1; }
             }
         }
+        // real parses: pest_vm on GENERATED grammars, all inputs up to length K over {x, y, space}; one case per distinct token stream
+        "vmgen" => {
+            let count = arg_u64(2, 20);
+            let mut rng = Rng::new(arg_u64(3, 0));
+            let k = arg_u64(4, 5) as usize;
+            let inputs = pvharness::gram::all_strings(&["x", "y", " "], k);
+            let mut made = 0u64; let mut tries = 0u64; let mut parses = 0u64; let mut oks = 0u64;
+            while made < count && tries < count * 20 {
+                tries += 1;
+                let g = gen_c04_grammar(&mut rng);
+                let gtext = pest_grammar(&g);
+                let (vm, names) = match compile(&gtext) { Some(x) => x, None => continue };
+                made += 1;
+                let mut seen: HashSet<String> = HashSet::new();
+                for input in inputs.iter() {
+                    parses += 1;
+                    if run_vg_case(&mut out, &vm, &names, &gtext, 2, 1, input, Some(&mut seen)) { oks += 1; }
+                }
+            }
+            writeln!(out.w, "#VMGEN\tgrammars={}\trejected={}\tparses={}\tok_parses={}", made, tries - made, parses, oks).unwrap();
+        }
+        // real parses: random ParserState closure trees from pvharness::prog::gen (the Layer-C generator), depth up to DEPTH
+        "prog" => {
+            let count = arg_u64(2, 1000);
+            let mut rng = Rng::new(arg_u64(3, 0));
+            let maxd = arg_u64(4, 7) as u32;
+            let mut produced = 0u64; let mut tries = 0u64; let mut seen: HashSet<String> = HashSet::new();
+            while produced < count && tries < count * 40 {
+                tries += 1;
+                let depth = rng.range(3, maxd as u64) as u32;
+                let p = pp::gen(&mut rng, depth, 0, None);
+                let input = pp::gen_input(&mut rng, 6);
+                let key = format!("{}|{}", p.show(), input);
+                if !seen.insert(key) { continue; }
+                let scripts = if rng.chance(1, 4) { random_scripts(&mut rng, 1, 12) } else { vec![] };
+                if run_pp_case(&mut out, 2, 1, &scripts, &input, &p) { produced += 1; }
+            }
+            writeln!(out.w, "#PROG\tprograms_tried={}\tok_runs={}", tries, produced).unwrap();
+        }
         // re-run exactly one case (replay)
         "one" => {
             let case = arg(2);
@@ -668,6 +853,12 @@ fn main() {
                         let mut vms = vec![];
                         for g in GRAMMARS.iter() { let (_, rules) = pest_meta::parse_and_optimize(g).expect("grammar"); let mut names: Vec<String> = rules.iter().map(|r| r.name.clone()).collect(); names.push("EOI".to_string()); vms.push((pest_vm::Vm::new(rules), names)); }
                         run_vm_case(&mut out, &vms, g.parse().unwrap_or(0), d, h, &scripts, &input);
+                    } else if let Some(hx) = src.strip_prefix("vg:") {
+                        let gtext = unhexs(hx);
+                        if let Some((vm, names)) = compile(&gtext) { run_vg_case(&mut out, &vm, &names, &gtext, d, h, &input, None); }
+                    } else if let Some(ps) = src.strip_prefix("pp:") {
+                        let prog = pp::Prog::parse(ps);
+                        run_pp_case(&mut out, d, h, &scripts, &input, &prog);
                     } else if let Some(pg) = src.strip_prefix("st:") {
                         let w = pg_lex(pg); let mut i = 0; let prog = pg_parse(&w, &mut i);
                         run_st_case(&mut out, d, h, &scripts, &input, &prog);
@@ -694,7 +885,7 @@ fn main() {
                 Err(_) => writeln!(out.w, "#PROBE\tfailed=1").unwrap(),
             }
         }
-        _ => { eprintln!("usage: c04 exhaustive N all|K D SEED | random COUNT SEED MAXN | builder COUNT SEED | vm K D | state COUNT SEED | one CASE | probe"); std::process::exit(2); }
+        _ => { eprintln!("usage: c04 exhaustive N all|K D SEED | random COUNT SEED MAXN | builder COUNT SEED | vm K D | vmgen COUNT SEED K | state COUNT SEED | prog COUNT SEED DEPTH | one CASE | probe"); std::process::exit(2); }
     }
     writeln!(out.w, "#SUMMARY\tevaluations={}\tdistinct_nontrivial={}", out.n, out.nontriv).unwrap();
 }
